@@ -224,12 +224,63 @@ func (r *pxRoles) keywordObligations() []Obligation {
 			return true
 		})
 	}
+	// the same table written as data: a map[string]TokenKind literal (package-level or local)
+	var mapLit *ast.CompositeLit
 	if sw == nil {
-		return []Obligation{{Key: "keywords|keyword switch", Pos: "-", Status: Undecided, Detail: "no switch over string constants assigning token kinds found in package lexer"}}
+		for _, f := range r.lex.pkg.Syntax {
+			ast.Inspect(f, func(n ast.Node) bool {
+				cl, ok := n.(*ast.CompositeLit)
+				if !ok {
+					return true
+				}
+				mt, ok := info.TypeOf(cl).Underlying().(*types.Map)
+				if !ok || !types.Identical(mt.Elem(), r.kindT) {
+					return true
+				}
+				if b, ok := mt.Key().Underlying().(*types.Basic); !ok || b.Kind() != types.String {
+					return true
+				}
+				if len(cl.Elts) >= 5 && (mapLit == nil || len(cl.Elts) > len(mapLit.Elts)) {
+					mapLit = cl
+				}
+				return true
+			})
+		}
+	}
+	if sw == nil && mapLit == nil {
+		return []Obligation{{Key: "keywords|keyword switch", Pos: "-", Status: Undecided, Detail: "no switch over string constants assigning token kinds (and no map[string]TokenKind literal) found in package lexer"}}
 	}
 	kw := map[string]string{}       // spelling → kind
 	byKind := map[string][]string{} // kind → spellings
 	defKind := ""
+	var tableNode ast.Node = mapLit
+	tablePos := token.NoPos
+	hostPos := token.NoPos
+	if mapLit != nil {
+		tablePos, hostPos = mapLit.Pos(), mapLit.Pos()
+		for _, el := range mapLit.Elts {
+			kv, ok := el.(*ast.KeyValueExpr)
+			if !ok {
+				continue
+			}
+			tv := info.Types[kv.Key]
+			if tv.Value == nil || tv.Value.Kind() != constant.String {
+				continue
+			}
+			sp := constant.StringVal(tv.Value)
+			kind := r.canonKind(info, kv.Value)
+			if kind == "" {
+				obs = append(obs, Obligation{Key: "keywords|" + sp, Pos: c.Pos(kv.Pos()), Status: Undecided, Detail: "entry does not map to a token kind constant"})
+				continue
+			}
+			kw[sp] = kind
+			byKind[kind] = append(byKind[kind], sp)
+		}
+		sw = &ast.SwitchStmt{Body: &ast.BlockStmt{}}
+	} else {
+		tableNode = sw
+		tablePos, hostPos = sw.Pos(), host.Pos()
+	}
 	for _, cl := range sw.Body.List {
 		cc := cl.(*ast.CaseClause)
 		kind := ""
@@ -277,7 +328,7 @@ func (r *pxRoles) keywordObligations() []Obligation {
 	for _, s := range spell {
 		k := kw[s]
 		d, has := r.display[k]
-		o := Obligation{Key: fmt.Sprintf("keyword|%q → %s", s, k), Pos: c.Pos(sw.Pos()), Nontrivial: true}
+		o := Obligation{Key: fmt.Sprintf("keyword|%q → %s", s, k), Pos: c.Pos(tablePos), Nontrivial: true}
 		switch {
 		case !has:
 			o.Status, o.Detail = Violated, fmt.Sprintf("kind %s has no display string in TokenKind.String (formatting it panics)", k)
@@ -305,13 +356,13 @@ func (r *pxRoles) keywordObligations() []Obligation {
 		builtElsewhere[defKind] = true
 	}
 	stringFd := c.MustFunc("homescript/lexer", "TokenKind", "String")
-	precFd := c.MustFunc("homescript/lexer", "TokenKind", "Prec")
+	precFd := r.decls[r.powerFn()]
 	for _, f := range r.lex.pkg.Syntax {
 		ast.Inspect(f, func(n ast.Node) bool {
 			if n == nil {
 				return true
 			}
-			if n == ast.Node(sw) || n == ast.Node(stringFd) || n == ast.Node(precFd) {
+			if n == tableNode || n == ast.Node(stringFd) || n == ast.Node(precFd) {
 				return false
 			}
 			if gd, ok := n.(*ast.GenDecl); ok && gd.Tok == token.CONST {
@@ -335,7 +386,7 @@ func (r *pxRoles) keywordObligations() []Obligation {
 		if !isAlphaWord(d) || builtElsewhere[k] {
 			continue
 		}
-		o := Obligation{Key: fmt.Sprintf("keyword kind|%s %q is recognised", k, d), Pos: c.Pos(host.Pos()), Nontrivial: true}
+		o := Obligation{Key: fmt.Sprintf("keyword kind|%s %q is recognised", k, d), Pos: c.Pos(hostPos), Nontrivial: true}
 		if kw[d] == k {
 			o.Status, o.Detail = Discharged, "the keyword switch maps the display string to this kind"
 		} else if kw[d] != "" {
@@ -376,7 +427,14 @@ func (r *pxRoles) lexerEscapes() (map[rune]rune, *ast.FuncDecl, []Obligation) {
 			if !ok || sw.Tag == nil {
 				return true
 			}
-			st, ok := ast.Unparen(sw.Tag).(*ast.StarExpr)
+			tag := ast.Unparen(sw.Tag)
+			if id, isId := tag.(*ast.Ident); isId {
+				// `ch := *self.currentChar; switch ch`
+				if def := pxLocalDefsOf(info, fd).single(info.Uses[id]); def != nil {
+					tag = ast.Unparen(def)
+				}
+			}
+			st, ok := tag.(*ast.StarExpr)
 			if !ok {
 				return true
 			}
@@ -391,8 +449,20 @@ func (r *pxRoles) lexerEscapes() (map[rune]rune, *ast.FuncDecl, []Obligation) {
 				}
 				var val *rune
 				for _, s := range cc.Body {
-					if as, ok := s.(*ast.AssignStmt); ok && len(as.Rhs) == 1 && len(as.Lhs) == 1 {
-						if tv := info.Types[as.Rhs[0]]; tv.Value != nil && tv.Value.Kind() == constant.Int {
+					var rhs ast.Expr
+					switch x := s.(type) {
+					case *ast.AssignStmt:
+						if len(x.Rhs) == 1 && len(x.Lhs) == 1 {
+							rhs = x.Rhs[0]
+						}
+					case *ast.ReturnStmt:
+						// `case 'n': return '\n', nil`
+						if len(x.Results) == 2 {
+							rhs = x.Results[0]
+						}
+					}
+					if rhs != nil {
+						if tv := info.Types[rhs]; tv.Value != nil && tv.Value.Kind() == constant.Int {
 							n, _ := constant.Int64Val(tv.Value)
 							rv := rune(n)
 							val = &rv
@@ -413,8 +483,72 @@ func (r *pxRoles) lexerEscapes() (map[rune]rune, *ast.FuncDecl, []Obligation) {
 			return true
 		})
 	}
+	// the same table written as data: map[rune]rune literals of the lexer package
+	// (letter → rune), e.g. `simpleEscapes[*self.currentChar]`
+	for _, f := range r.lex.pkg.Syntax {
+		var encl *ast.FuncDecl
+		ast.Inspect(f, func(n ast.Node) bool {
+			if fd, ok := n.(*ast.FuncDecl); ok {
+				encl = fd
+			}
+			cl, ok := n.(*ast.CompositeLit)
+			if !ok {
+				return true
+			}
+			mt, ok := info.TypeOf(cl).Underlying().(*types.Map)
+			if !ok {
+				return true
+			}
+			kb, ok1 := mt.Key().Underlying().(*types.Basic)
+			vb, ok2 := mt.Elem().Underlying().(*types.Basic)
+			if !ok1 || !ok2 || kb.Kind() != types.Int32 || vb.Kind() != types.Int32 || len(cl.Elts) < 3 {
+				return true
+			}
+			for _, el := range cl.Elts {
+				kv, ok := el.(*ast.KeyValueExpr)
+				if !ok {
+					continue
+				}
+				k, v := info.Types[kv.Key], info.Types[kv.Value]
+				if k.Value == nil || v.Value == nil {
+					continue
+				}
+				kn, _ := constant.Int64Val(constant.ToInt(k.Value))
+				vn, _ := constant.Int64Val(constant.ToInt(v.Value))
+				esc[rune(kn)] = rune(vn)
+				if host == nil {
+					host = encl
+					if host == nil {
+						// package-level table: anchor at the escape method that has the rune/error signature
+						for _, fd := range AllFuncDecls(r.lex.pkg) {
+							if fn, _ := info.Defs[fd.Name].(*types.Func); fn != nil {
+								sig := fn.Type().(*types.Signature)
+								if sig.Results().Len() == 2 && r.errIndex(sig) == 1 {
+									if b, ok := sig.Results().At(0).Type().(*types.Basic); ok && b.Kind() == types.Int32 && host == nil {
+										refers := false
+										ast.Inspect(fd.Body, func(m ast.Node) bool {
+											if id, ok := m.(*ast.Ident); ok {
+												if v, ok := info.Uses[id].(*types.Var); ok && v.Pkg() != nil && v.Parent() == v.Pkg().Scope() && types.Identical(v.Type(), info.TypeOf(cl)) {
+													refers = true
+												}
+											}
+											return true
+										})
+										if refers {
+											host = fd
+										}
+									}
+								}
+							}
+						}
+					}
+				}
+			}
+			return true
+		})
+	}
 	if host == nil || len(esc) < 3 {
-		return esc, nil, []Obligation{{Key: "escapes|lexer escape switch", Pos: "-", Status: Undecided, Detail: "no (rune, *errors.Error) method of the lexer switches over the current rune assigning rune constants"}}
+		return esc, nil, []Obligation{{Key: "escapes|lexer escape switch", Pos: "-", Status: Undecided, Detail: "no (rune, *errors.Error) method of the lexer switches over the current rune assigning rune constants, and no map[rune]rune table"}}
 	}
 	var letters []rune
 	for l := range esc {
@@ -498,15 +632,37 @@ func (r *pxRoles) stringLiteralPrinters() ([]*pxPrinter, []Obligation) {
 			if !ok || len(cc.List) != 1 || r.canonKind(r.info, cc.List[0]) != strKind {
 				return true
 			}
-			for _, s := range cc.Body {
-				ast.Inspect(s, func(m ast.Node) bool {
+			// the node is built in the clause, or in the parser method the clause hands over to
+			// (`case lexer.String: return self.stringLiteral()`), a few levels deep
+			var scan func(root ast.Node, depth int, seen map[*ast.FuncDecl]bool)
+			scan = func(root ast.Node, depth int, seen map[*ast.FuncDecl]bool) {
+				ast.Inspect(root, func(m ast.Node) bool {
 					if cl, ok := m.(*ast.CompositeLit); ok && pType == nil {
-						if nt, ok := r.info.Types[cl].Type.(*types.Named); ok && strings.HasSuffix(nt.Obj().Pkg().Path(), "/parser/ast") {
-							pType = nt
+						if nt, ok := r.info.Types[cl].Type.(*types.Named); ok && nt.Obj().Pkg() != nil && strings.HasSuffix(nt.Obj().Pkg().Path(), "/parser/ast") {
+							if _, isStruct := nt.Underlying().(*types.Struct); isStruct {
+								pType = nt
+							}
 						}
 					}
-					return true
+					return pType == nil
 				})
+				if pType != nil || depth >= 2 {
+					return
+				}
+				ast.Inspect(root, func(m ast.Node) bool {
+					if call, ok := m.(*ast.CallExpr); ok && pType == nil {
+						if g := CalleeOf(r.info, call); g != nil && r.declPkg[g] == r.pkg {
+							if gd := r.decls[g]; gd != nil && gd.Body != nil && !seen[gd] && !r.isNext(g) && !r.expectF[g] {
+								seen[gd] = true
+								scan(gd.Body, depth+1, seen)
+							}
+						}
+					}
+					return pType == nil
+				})
+			}
+			for _, s := range cc.Body {
+				scan(s, 0, map[*ast.FuncDecl]bool{})
 			}
 			return true
 		})
@@ -589,51 +745,46 @@ func (r *pxRoles) printerEscapeObligations(lexEsc map[rune]rune, escFd *ast.Func
 		} else {
 			pname = "parser/ast." + p.typ.Obj().Name()
 		}
-		// how is the string field formatted?
-		var valueArg ast.Expr
-		format := ""
-		ast.Inspect(p.stringFd.Body, func(n ast.Node) bool {
-			call, ok := n.(*ast.CallExpr)
-			if !ok || len(call.Args) < 2 {
-				return true
-			}
-			if tv := info.Types[call.Args[0]]; tv.Value != nil && tv.Value.Kind() == constant.String {
-				format = constant.StringVal(tv.Value)
-				valueArg = call.Args[1]
-			}
-			return true
-		})
+		// how is the string field formatted? The printed text is evaluated as a
+		// concatenation (constant pieces, the value passed through a function, the raw
+		// value), whichever way it is spelled: Sprintf with a constant format, `+`,
+		// a local holding an intermediate piece.
 		key := "escapes|" + pname + ".String"
 		pos := c.Pos(p.stringFd.Pos())
-		if valueArg == nil {
-			obs = append(obs, Obligation{Key: key + "|shape", Pos: pos, Status: Undecided, Detail: "String() is not a formatting call with a constant format"})
+		shape, why := pxPrintedShape(c, info, p.stringFd)
+		if shape == nil {
+			obs = append(obs, Obligation{Key: key + "|shape", Pos: pos, Status: Undecided, Detail: why})
 			continue
 		}
-		if len(format) > 0 {
-			p.quote = format[:1]
-		}
-		if p.quote != `"` && p.quote != `'` {
-			obs = append(obs, Obligation{Key: key + "|shape", Pos: pos, Status: Undecided, Detail: fmt.Sprintf("format %q does not start with a quote", format)})
-			continue
-		}
-		if call, ok := ast.Unparen(valueArg).(*ast.CallExpr); ok {
-			p.escaper = CalleeOf(info, call)
-		} else {
-			p.raw = true
-		}
-		if p.raw || p.escaper == nil {
+		p.quote = shape.quote
+		format := shape.quote + "%s" + shape.quote
+		valueArg := shape.value
+		p.escaper, p.raw = shape.escaper, shape.raw
+		inlineTable := shape.inline
+		if p.raw || (p.escaper == nil && inlineTable == nil) {
 			obs = append(obs, Obligation{Key: key + "|escapes backslash and the delimiting quote", Pos: pos, Status: Violated, Nontrivial: true,
 				Detail: fmt.Sprintf("the literal is printed as %s with the raw value %s: a value containing %s or a backslash prints as text that lexes to a different string or does not lex at all (e.g. the value a%sb prints as %sa%sb%s)", strconv.Quote(format), exprStr(valueArg), p.quote, p.quote, p.quote, p.quote, p.quote)})
 			shown = append(shown, pname+": raw")
 			continue
 		}
-		efd := pxFuncDeclOf(info, p.escaper)
-		if efd == nil {
-			obs = append(obs, Obligation{Key: key + "|escaper", Pos: pos, Status: Undecided, Detail: "escaping function " + p.escaper.Name() + " is not declared in this package"})
-			continue
+		var efd *ast.FuncDecl
+		var epos, ekey, ename string
+		if p.escaper != nil {
+			efd = pxFuncDeclOf(info, p.escaper)
+			if efd == nil {
+				obs = append(obs, Obligation{Key: key + "|escaper", Pos: pos, Status: Undecided, Detail: "escaping function " + p.escaper.Name() + " is not declared in this package"})
+				continue
+			}
+			epos = c.Pos(efd.Pos())
+			ename = p.escaper.Name()
+			ekey = "escapes|" + strings.TrimSuffix(pname, "."+p.typ.Obj().Name()) + "." + ename
+		} else {
+			// the replacement is applied in String() itself
+			efd = p.stringFd
+			epos = pos
+			ename = "String (inline)"
+			ekey = key
 		}
-		epos := c.Pos(efd.Pos())
-		ekey := "escapes|" + strings.TrimSuffix(pname, "."+p.typ.Obj().Name()) + "." + p.escaper.Name()
 		// the table: a map[string]string composite literal (or a slice of pairs)
 		type row struct{ from, to string }
 		var rows []row
@@ -642,34 +793,37 @@ func (r *pxRoles) printerEscapeObligations(lexEsc map[rune]rune, escFd *ast.Func
 		// the function body plus the initialisers of package-level variables it refers to
 		// (a replacer or table hoisted out of the function is the same table)
 		scanNodes := []ast.Node{efd.Body}
-		ast.Inspect(efd.Body, func(n ast.Node) bool {
-			id, ok := n.(*ast.Ident)
-			if !ok {
-				return true
-			}
-			v, ok := info.Uses[id].(*types.Var)
-			if !ok || v.Pkg() == nil || v.Parent() != v.Pkg().Scope() {
-				return true
-			}
-			for _, pk := range c.All {
-				if pk.Types != v.Pkg() {
-					continue
-				}
-				for _, f := range pk.Syntax {
-					ast.Inspect(f, func(m ast.Node) bool {
-						if vs, ok := m.(*ast.ValueSpec); ok {
-							for i, nm := range vs.Names {
-								if pk.TypesInfo.Defs[nm] == v && i < len(vs.Values) {
-									scanNodes = append(scanNodes, vs.Values[i])
-								}
-							}
+		// the helpers the escaping function delegates to (string → string functions of
+		// the same package, a few levels): a wrapper around the table is the same table
+		{
+			seenFn := map[*types.Func]bool{p.escaper: true}
+			frontier := []*ast.FuncDecl{efd}
+			for depth := 0; depth < 3 && len(frontier) > 0; depth++ {
+				var next []*ast.FuncDecl
+				for _, f := range frontier {
+					ast.Inspect(f.Body, func(n ast.Node) bool {
+						call, ok := n.(*ast.CallExpr)
+						if !ok {
+							return true
+						}
+						g := CalleeOf(info, call)
+						if g == nil || seenFn[g] || !pxIsStringToString(g) {
+							return true
+						}
+						seenFn[g] = true
+						if gd := pxFuncDeclOf(info, g); gd != nil && gd.Body != nil {
+							scanNodes = append(scanNodes, gd.Body)
+							next = append(next, gd)
 						}
 						return true
 					})
 				}
+				frontier = next
 			}
-			return true
-		})
+		}
+		for _, root := range append([]ast.Node(nil), scanNodes...) {
+			pxCollectPkgVarInits(c, info, root, &scanNodes)
+		}
 		pxScan := func(fn func(n ast.Node) bool) {
 			for _, nd := range scanNodes {
 				ast.Inspect(nd, fn)
@@ -749,7 +903,7 @@ func (r *pxRoles) printerEscapeObligations(lexEsc map[rune]rune, escFd *ast.Func
 			}
 			obs = append(obs, o)
 		}
-		shown = append(shown, fmt.Sprintf("%s via %s {%s}", pname, p.escaper.Name(), strings.Join(tab, ", ")))
+		shown = append(shown, fmt.Sprintf("%s via %s {%s}", pname, ename, strings.Join(tab, ", ")))
 		// (ii) mandatory entries
 		{
 			var fails []string
@@ -1000,4 +1154,312 @@ func (r *pxRoles) grammarObligations(codeOps map[string]map[string]bool, lexEsc 
 		obs = append(obs, Obligation{Key: "grammar|ESCAPE_CHAR", Pos: "grammar.ebnf", Status: Undecided, Detail: "production ESCAPE_CHAR not found"})
 	}
 	return obs
+}
+
+// ---------------------------------------------------------------------
+// printed shape of the string-literal node
+
+// pxShape: the text String() produces is  quote · f(value) · quote.
+type pxShape struct {
+	quote   string
+	value   ast.Expr    // the expression holding the node's string value
+	raw     bool        // value printed verbatim
+	escaper *types.Func // value passed through this declared function
+	inline  ast.Node    // value passed through a replacer applied in String() itself
+}
+
+type pxStrPart struct {
+	lit     string // constant text (kind "lit")
+	kind    string // "lit", "raw", "esc", "inline", "unknown"
+	expr    ast.Expr
+	escaper *types.Func
+	site    ast.Node
+	why     string
+}
+
+func pxIsStringToString(g *types.Func) bool {
+	sig, ok := g.Type().(*types.Signature)
+	if !ok || sig.Params().Len() != 1 || sig.Results().Len() != 1 {
+		return false
+	}
+	isStr := func(t types.Type) bool {
+		b, ok := t.Underlying().(*types.Basic)
+		return ok && b.Kind() == types.String
+	}
+	return isStr(sig.Params().At(0).Type()) && isStr(sig.Results().At(0).Type())
+}
+
+// pxCollectPkgVarInits appends the initialisers of the package-level variables root mentions.
+func pxCollectPkgVarInits(c *Ctx, info *types.Info, root ast.Node, out *[]ast.Node) {
+	seen := map[*types.Var]bool{}
+	ast.Inspect(root, func(n ast.Node) bool {
+		id, ok := n.(*ast.Ident)
+		if !ok {
+			return true
+		}
+		v, ok := info.Uses[id].(*types.Var)
+		if !ok || v.Pkg() == nil || v.Parent() != v.Pkg().Scope() || seen[v] {
+			return true
+		}
+		seen[v] = true
+		for _, pk := range c.All {
+			if pk.Types != v.Pkg() {
+				continue
+			}
+			for _, f := range pk.Syntax {
+				for _, d := range f.Decls {
+					gd, ok := d.(*ast.GenDecl)
+					if !ok {
+						continue
+					}
+					for _, sp := range gd.Specs {
+						if vs, ok := sp.(*ast.ValueSpec); ok {
+							for i, nm := range vs.Names {
+								if pk.TypesInfo.Defs[nm] == v && i < len(vs.Values) {
+									*out = append(*out, vs.Values[i])
+								}
+							}
+						}
+					}
+				}
+			}
+		}
+		return true
+	})
+}
+
+// pxPrintedShape evaluates every return of String() to a concatenation and
+// requires all of them to be quote · (raw | escaped) value · quote.
+func pxPrintedShape(c *Ctx, info *types.Info, fd *ast.FuncDecl) (*pxShape, string) {
+	recv := pxRecvObj(info, fd)
+	// single definitions of string locals
+	defs := map[types.Object]ast.Expr{}
+	multi := map[types.Object]bool{}
+	ast.Inspect(fd.Body, func(n ast.Node) bool {
+		if _, ok := n.(*ast.FuncLit); ok {
+			return false
+		}
+		switch x := n.(type) {
+		case *ast.AssignStmt:
+			if len(x.Lhs) != len(x.Rhs) {
+				for _, l := range x.Lhs {
+					if id, ok := l.(*ast.Ident); ok {
+						if o := info.ObjectOf(id); o != nil {
+							multi[o] = true
+						}
+					}
+				}
+				return true
+			}
+			for i, l := range x.Lhs {
+				id, ok := l.(*ast.Ident)
+				if !ok {
+					continue
+				}
+				o := info.ObjectOf(id)
+				if o == nil {
+					continue
+				}
+				if _, dup := defs[o]; dup || x.Tok != token.DEFINE && x.Tok != token.ASSIGN {
+					multi[o] = true
+				}
+				defs[o] = x.Rhs[i]
+			}
+		case *ast.ValueSpec:
+			for i, nm := range x.Names {
+				if o := info.Defs[nm]; o != nil && i < len(x.Values) {
+					if _, dup := defs[o]; dup {
+						multi[o] = true
+					}
+					defs[o] = x.Values[i]
+				}
+			}
+		case *ast.IncDecStmt:
+			if id, ok := x.X.(*ast.Ident); ok {
+				if o := info.ObjectOf(id); o != nil {
+					multi[o] = true
+				}
+			}
+		}
+		return true
+	})
+	var eval func(e ast.Expr, depth int) []pxStrPart
+	unknown := func(e ast.Expr, why string) []pxStrPart {
+		return []pxStrPart{{kind: "unknown", expr: e, why: why}}
+	}
+	isRecvField := func(e ast.Expr) bool {
+		sel, ok := ast.Unparen(e).(*ast.SelectorExpr)
+		if !ok {
+			return false
+		}
+		id, ok := ast.Unparen(sel.X).(*ast.Ident)
+		if !ok || recv == nil || info.Uses[id] != recv {
+			return false
+		}
+		b, ok := info.TypeOf(e).Underlying().(*types.Basic)
+		return ok && b.Kind() == types.String
+	}
+	eval = func(e ast.Expr, depth int) []pxStrPart {
+		e = ast.Unparen(e)
+		if depth > 8 {
+			return unknown(e, "too deep")
+		}
+		if tv, ok := info.Types[e]; ok && tv.Value != nil && tv.Value.Kind() == constant.String {
+			return []pxStrPart{{kind: "lit", lit: constant.StringVal(tv.Value)}}
+		}
+		if isRecvField(e) {
+			return []pxStrPart{{kind: "raw", expr: e}}
+		}
+		switch x := e.(type) {
+		case *ast.BinaryExpr:
+			if x.Op == token.ADD {
+				return append(eval(x.X, depth+1), eval(x.Y, depth+1)...)
+			}
+		case *ast.Ident:
+			o := info.Uses[x]
+			if o != nil && !multi[o] && defs[o] != nil {
+				return eval(defs[o], depth+1)
+			}
+		case *ast.CallExpr:
+			// string(x) conversion of a string
+			if tv, ok := info.Types[x.Fun]; ok && tv.IsType() && len(x.Args) == 1 {
+				if b, ok := info.TypeOf(x.Args[0]).Underlying().(*types.Basic); ok && b.Kind() == types.String {
+					return eval(x.Args[0], depth+1)
+				}
+			}
+			g := CalleeOf(info, x)
+			if g == nil {
+				break
+			}
+			pkgPath := ""
+			if g.Pkg() != nil {
+				pkgPath = g.Pkg().Path()
+			}
+			sig := g.Type().(*types.Signature)
+			switch {
+			case pkgPath == "fmt" && (g.Name() == "Sprintf") && len(x.Args) >= 1:
+				tv := info.Types[x.Args[0]]
+				if tv.Value == nil || tv.Value.Kind() != constant.String {
+					return unknown(e, "format is not a constant")
+				}
+				format := constant.StringVal(tv.Value)
+				var out []pxStrPart
+				arg := 1
+				lit := ""
+				for i := 0; i < len(format); i++ {
+					if format[i] != '%' {
+						lit += string(format[i])
+						continue
+					}
+					if i+1 >= len(format) {
+						return unknown(e, "dangling % in format")
+					}
+					i++
+					switch format[i] {
+					case '%':
+						lit += "%"
+					case 's', 'v':
+						if arg >= len(x.Args) {
+							return unknown(e, "format has more verbs than arguments")
+						}
+						if lit != "" {
+							out = append(out, pxStrPart{kind: "lit", lit: lit})
+							lit = ""
+						}
+						out = append(out, eval(x.Args[arg], depth+1)...)
+						arg++
+					default:
+						return unknown(e, fmt.Sprintf("format verb %%%c is not understood", format[i]))
+					}
+				}
+				if lit != "" {
+					out = append(out, pxStrPart{kind: "lit", lit: lit})
+				}
+				return out
+			case pkgPath == "fmt" && g.Name() == "Sprint" && len(x.Args) == 1:
+				return eval(x.Args[0], depth+1)
+			case pkgPath == "strings" && sig.Recv() != nil && g.Name() == "Replace" && len(x.Args) == 1:
+				// (*strings.Replacer).Replace(v): the table is applied in place
+				inner := eval(x.Args[0], depth+1)
+				if len(inner) == 1 && inner[0].kind == "raw" {
+					return []pxStrPart{{kind: "inline", expr: inner[0].expr, site: x}}
+				}
+				return unknown(e, "replacer applied to something else than the node's value")
+			case len(x.Args) == 1 && pxIsStringToString(g):
+				inner := eval(x.Args[0], depth+1)
+				if len(inner) == 1 && inner[0].kind == "raw" {
+					return []pxStrPart{{kind: "esc", expr: inner[0].expr, escaper: g, site: x}}
+				}
+				if len(inner) == 1 && (inner[0].kind == "esc" || inner[0].kind == "inline") {
+					return unknown(e, "the value is passed through two escaping steps")
+				}
+				return unknown(e, g.Name()+"() is applied to something else than the node's value")
+			}
+		}
+		return unknown(e, "the piece "+exprStr(e)+" is not understood")
+	}
+	var shape *pxShape
+	nret := 0
+	why := ""
+	bad := false
+	ast.Inspect(fd.Body, func(n ast.Node) bool {
+		if _, ok := n.(*ast.FuncLit); ok {
+			return false
+		}
+		ret, ok := n.(*ast.ReturnStmt)
+		if !ok || len(ret.Results) != 1 || bad {
+			return true
+		}
+		nret++
+		parts := eval(ret.Results[0], 0)
+		// merge adjacent constant pieces
+		var m []pxStrPart
+		for _, p := range parts {
+			if p.kind == "lit" && len(m) > 0 && m[len(m)-1].kind == "lit" {
+				m[len(m)-1].lit += p.lit
+				continue
+			}
+			if p.kind == "lit" && p.lit == "" {
+				continue
+			}
+			m = append(m, p)
+		}
+		for _, p := range m {
+			if p.kind == "unknown" {
+				bad, why = true, "String() is not a quoted rendering of the value: "+p.why
+				return true
+			}
+		}
+		if len(m) != 3 || m[0].kind != "lit" || m[2].kind != "lit" || m[1].kind == "lit" {
+			bad, why = true, fmt.Sprintf("String() does not render quote · value · quote (%d pieces)", len(m))
+			return true
+		}
+		q := m[0].lit
+		if (q != `"` && q != `'`) || m[2].lit != q {
+			bad, why = true, fmt.Sprintf("the value is delimited by %q … %q, not by one quote character on each side", m[0].lit, m[2].lit)
+			return true
+		}
+		sh := &pxShape{quote: q, value: m[1].expr}
+		switch m[1].kind {
+		case "raw":
+			sh.raw = true
+		case "esc":
+			sh.escaper = m[1].escaper
+		case "inline":
+			sh.inline = m[1].site
+		}
+		if shape != nil && (shape.quote != sh.quote || shape.raw != sh.raw || shape.escaper != sh.escaper || (shape.inline == nil) != (sh.inline == nil)) {
+			bad, why = true, "the returns of String() render the value in different ways"
+			return true
+		}
+		shape = sh
+		return true
+	})
+	if bad {
+		return nil, why
+	}
+	if shape == nil {
+		return nil, "String() has no single-result return"
+	}
+	return shape, ""
 }
